@@ -15,7 +15,8 @@ RULE = ("classes / interfaces built around every threshold: method spans 29-33 l
         "not), 4-7 parameters, 18-22 methods with getter/setter mixes, 6-10 top-level and nested ifs and switches, "
         "conditions spanning 2-6 lines, 0-2 methods; random classes elsewhere; x random subsets of ignored kinds; "
         "the -s type grouping through the coca binary; non-trivial = at least one finding; distinct = distinct input"
-        '; classes with the bare accessors get / set; 15% of the units have Windows line ends')
+        '; classes with the bare accessors get / set; 15% of the units have Windows line ends'
+        "; every other tree's finding list is observed through `coca bs -p DIR [-x KINDS]` (coca_reporter/bs.json)")
 TRUSTED_BASE = C01.TRUSTED_BASE + ["refusedBequest and graphConnectedCall findings are dropped from both sides (outside C10)"]
 ASSUMPTIONS = ["the line a declaration starts on = the line of its return type (modifiers and annotations belong to the "
                "enclosing body declaration)"]
